@@ -98,6 +98,41 @@ func init() {
 		}
 		c.Outcome("req:" + p.Path)
 	}
+	// the order of the handler's own reads and writes is a segmentation, too: a handler that writes
+	// its whole response before it reads the request reads the same request bytes
+	order := func(c *xplor.Ctx) {
+		p := pairings[c.Free("pairing", len(pairings))]
+		c.Attr("pairing", p.Name)
+		c.Attr("path", p.Path)
+		c.Attr("side", "order")
+		var rep *world.Reply
+		base := p.run(runOpts{Reply: func(r *world.Reply) { rep = r }})
+		if base.Err != nil || rep == nil || base.Backend.Calls != 1 || base.Ex.Rec.Status != 200 {
+			c.Skip()
+			return
+		}
+		if !p.Client.Enveloped() || p.Target == wire.REST || p.Target == wire.ConnectUnary {
+			c.Skip() // (only where both legs can run full duplex; elsewhere the request is consumed before the handler is called, or the response is held back)
+			return
+		}
+		rs := readSizeMenu[c.Free("readsize", len(readSizeMenu))]
+		v := p.run(runOpts{ReadSizes: []int{rs}, RespondFirst: rep})
+		if v.Err != nil {
+			c.Fail("harness.setup", "%v", v.Err)
+			return
+		}
+		if spun(c, "C08", v) {
+			return
+		}
+		c.Nontrivial(fmt.Sprintf("%s|respond-first|%d", p.Name, rs))
+		if bv, vv := backendView(base.Backend), backendView(v.Backend); bv != vv && semBackend(base.Backend, p.in()) != semBackend(v.Backend, p.in()) {
+			c.Fail("C08.handler-bytes-differ", "pairing %s, handler writes its whole response before it reads (read size %d)\n reads first: %s\n writes first: %s", p.Name, rs, short(bv), short(vv))
+		}
+		if bc, vc := clientView(base.Ex), clientView(v.Ex); bc != vc && semClient(p.Client, base.Ex, p.out()) != semClient(p.Client, v.Ex, p.out()) {
+			c.Fail("C08.client-response-differs", "pairing %s, handler writes its whole response before it reads (read size %d)\n reads first: %s\n writes first: %s", p.Name, rs, short(bc), short(vc))
+		}
+		c.Outcome("order:" + p.Path)
+	}
 	respSide := func(c *xplor.Ctx) {
 		p := pairings[c.Free("pairing", len(pairings))]
 		c.Attr("pairing", p.Name)
@@ -182,6 +217,7 @@ func init() {
 		Scenarios: []Scenario{
 			{Name: "request-side", Fn: reqSide, QuickBound: 2, ThoroughBound: 3},
 			{Name: "response-side", Fn: respSide, QuickBound: 2, ThoroughBound: 3},
+			{Name: "read-write-order", Fn: order, QuickBound: 0, ThoroughBound: 0},
 		},
 		RequireNotes: []string{"base.ok", "readsize<5"},
 		MinOutcomes:  5,
